@@ -24,6 +24,10 @@ type runTracerouteOnceFnType func(ctx context.Context, params TracerouteParams, 
 var runTracerouteOnceFn = runTracerouteOnce
 
 func runTracerouteOnce(ctx context.Context, params TracerouteParams, destinationPort int) (*result.TracerouteRun, error) {
+	// the TTL bounds are narrowed to uint8 below: reject what does not fit on the wire instead of wrapping it
+	if params.MinTTL < 1 || params.MaxTTL > 255 || params.MinTTL > params.MaxTTL {
+		return nil, fmt.Errorf("invalid TTL range [%d, %d]: need 1 <= min TTL <= max TTL <= 255", params.MinTTL, params.MaxTTL)
+	}
 	var trRun *result.TracerouteRun
 	switch params.Protocol {
 	case "udp":
